@@ -308,8 +308,14 @@ static void conf_parse_string_value(struct conf_node_string *cnode)
     if (!cnode->value)
         cnode->value = xstrdup(cnode->def_value);
     if (!cnode->value) {
+        /* No value and no default; the caller may already have
+         * detached the previous value, so look at what was parsed.
+         */
+        static const union conf_node_string_value no_value;
+        int had_value = orig_value
+            || memcmp(&cnode->parsed, &no_value, sizeof(no_value));
         memset(&cnode->parsed, 0, sizeof(cnode->parsed));
-        if (orig_value && cnode->base.hook)
+        if (had_value && cnode->base.hook)
             cnode->base.hook(&cnode->base);
         goto out;
     }
